@@ -19,6 +19,7 @@ def run(ctx):
     sa.seek_ownership_rule(ctx, 'R7.1')
     sa.restore_rule(ctx, 'R7.1b')
     sa.commit_after_loop_rule(ctx, 'R7.1c')
+    sa.commit_after_loop_multi_rule(ctx, 'R7.1c')
     ar.fresh_part_rule(ctx, 'R7.2')
     ar.no_remove_rename_rule(ctx, 'R7.3')
     ar.compat_checks_rule(ctx, 'R7.4')
@@ -37,6 +38,7 @@ def run(ctx):
     from . import c08 as _c08, c01 as _c01
     _c08.r85(ctx)
     _c01.r121(ctx, 'R7.13')
+    _c01.r122(ctx, 'R7.14')    # an appended frame is cut into row groups by the same offsets rule
     from . import c10
     c10.r1010(ctx, 'R7.8')
 
